@@ -22,6 +22,7 @@ CODE = 0x400000
 CODE_SIZE = 0x100000
 STACK = 0x7fff0000
 EXC_DIV = 1 << 16
+EXC_UNK_MNEMO = 1 << 19
 GARB_GPR = [0x0123456789ABCDEF, 0xFEDCBA9876543210, 0x8000000000000001, 0x7FFFFFFFFFFFFFFE,
             0, 0xDEADBEEFCAFEF00D, 0x1111111122222222, 0x9999999988888888,
             0xA5A5A5A55A5A5A5A, 0x0F0F0F0FF0F0F0F0, 0xFFFFFFFF00000000, 0x00000000FFFFFFFF,
@@ -504,6 +505,8 @@ def judge(tpl, code, vals, flags, nat, emu_fn, data_addr):
         return [(bucket(tpl, "emul-error:%s@%s" % (type(ex).__name__, where)),
                  "%s: emulation raised %r" % (head, ex))], True, None
     fails = []
+    if emu["exc"] & EXC_UNK_MNEMO:
+        return [], False, "miasm does not disassemble the encoding its assembler produced (round trip: C14/C15)"
     emu_fault = bool(emu["exc"] & EXC_DIV)
     if ref_fault or emu_fault:
         if ref_fault != emu_fault:
@@ -573,7 +576,7 @@ def det_cases(tpl, tier):
     total = 1
     for l in lists:
         total *= len(l)
-    cap = tpl.cap or (600 if tier == "thorough" else (64 if tpl.depth else 24))
+    cap = tpl.cap or (240 if tier == "thorough" else (64 if tpl.depth else 24))
     if os.environ.get("C18_DEVCAP"):
         cap = min(cap, int(os.environ["C18_DEVCAP"]))
     if total <= cap:
@@ -595,6 +598,35 @@ def det_cases(tpl, tier):
             combo.append(l[idx % len(l)])
             idx //= len(l)
         yield combo[:-1], combo[-1]
+
+
+def shard_templates(allt, tier, shard, nshards):
+    """Templates with the same operand text go to the same shard (the parser memo then serves all the mnemonics);
+    groups are dealt greedily, largest estimated cost first, to the least loaded shard (deterministic)."""
+    groups = {}
+    for t in allt:
+        key = t.text if t.text.startswith("REP") else t.text.split(" ", 1)[-1]
+        groups.setdefault(key, []).append(t)
+    costs = []
+    for key, ts in groups.items():
+        c = 0
+        for t in ts:
+            n = 1
+            for sl in t.slots:
+                n *= len(sl.values(1 if tier == "thorough" else t.depth))
+            n *= len(T.flagsets(t.flagsets))
+            cap = t.cap or (240 if tier == "thorough" else (64 if t.depth else 24))
+            c += min(n, cap) + 25
+        costs.append((c, key))
+    costs.sort(key=lambda ck: (-ck[0], ck[1]))
+    load = [0] * nshards
+    mine = []
+    for c, key in costs:
+        i = min(range(nshards), key=lambda k: (load[k], k))
+        load[i] += c
+        if i == shard:
+            mine.extend(groups[key])
+    return mine
 
 
 def slot_strategy(slot):
@@ -632,6 +664,22 @@ def case_strategy(tpls):
 
 
 # ---------------------------------------------------------------------------------------------
+
+class quiet_stderr(object):
+    """miasm's VM prints a WARNING line on stderr for every unmapped access: keep the run quiet
+    (harness errors travel as exceptions through the runner, not through this descriptor)"""
+
+    def __enter__(self):
+        self.saved = os.dup(2)
+        devnull = os.open(os.devnull, os.O_WRONLY)
+        os.dup2(devnull, 2)
+        os.close(devnull)
+
+    def __exit__(self, *exc):
+        os.dup2(self.saved, 2)
+        os.close(self.saved)
+        return False
+
 
 class C18(Check):
     pid = "C18"
@@ -722,25 +770,14 @@ class C18(Check):
             self.run_group(res, cur, stratum, unsupported)
 
     def run_shard(self, tier, seed, shard, nshards):
-        # miasm's VM prints a WARNING line on stderr for every unmapped access: keep the run quiet
-        # (harness errors travel as exceptions through the runner, not through this descriptor)
-        saved = os.dup(2)
-        devnull = os.open(os.devnull, os.O_WRONLY)
-        os.dup2(devnull, 2)
-        os.close(devnull)
-        try:
+        with quiet_stderr():
             return self._run_shard(tier, seed, shard, nshards)
-        finally:
-            os.dup2(saved, 2)
-            os.close(saved)
 
     def _run_shard(self, tier, seed, shard, nshards):
         res = ShardResult()
         res.max_failures_per_bucket = 2
         allt = tables(tier)
-        # templates with the same operand text go to the same shard (the parser memo then serves all mnemonics)
-        mine = [t for t in allt if stable_hash(t.text.split(" ", 1)[-1] if not t.text.startswith("REP") else t.text)
-                % nshards == shard]
+        mine = shard_templates(allt, tier, shard, nshards)
         if os.environ.get("C18_ONLY"):       # development aid: restrict to mnemonics matching a regex
             mine = [t for t in mine if re.fullmatch(os.environ["C18_ONLY"], t.mn)]
         encs = prepare(mine, res)
@@ -776,7 +813,8 @@ class C18(Check):
             nb = eb if tpl.mode == 64 else miasm_asm(tpl.text, 64)
             gpr, fl, xmm, mem, named = build_state(tpl, vals, flags, data)
             nat = nx.run_batch([nx.Case(nb, gpr, fl, xmm, mem)])[0]
-        fails, nt, drop = judge(tpl, eb, vals, flags, nat, get_emu(tpl.mode).run, data)
+        with quiet_stderr():
+            fails, nt, drop = judge(tpl, eb, vals, flags, nat, get_emu(tpl.mode).run, data)
         return fails
 
     def replay(self, case):
